@@ -1,5 +1,5 @@
 """Property -> rules mapping, floors, level texts."""
-from .rules import termination, streams
+from .rules import termination, streams, decoders, layouts
 
 RULES = {}
 FLOORS = {}
@@ -18,6 +18,20 @@ reg("T4", termination.rule_T4, 4)
 for _i, _f in enumerate(("S1", "S2", "S3", "S4", "S5", "S6", "S7", "S8", "S9"), 1):
     reg(_f, getattr(streams, "rule_" + _f), 2)
 
+for _f in ("D1", "D2", "D3", "D4"):
+    reg(_f, getattr(decoders, "rule_" + _f), 2)
+
+reg("L1a", layouts.rule_L1_akai_export, 40)
+reg("L1i", layouts.rule_L1_akai_info, 100)
+reg("L1r", layouts.rule_L1_roland, 200)
+reg("L1ri", layouts.rule_L1_roland_info, 30)
+reg("L1w", layouts.rule_L1_wav, 30)
+reg("L1c", layouts.rule_L1_containers, 15)
+reg("L1t", layouts.rule_L1_tables, 30)
+reg("L2", layouts.rule_L2, 20)
+reg("L4", layouts.rule_L4, 20)
+reg("L5", layouts.rule_L5, 25)
+
 COMMON_ASSUMPTIONS = [
     "static analysis of /repo's source only: the package is never imported or executed by the check",
     "the `construct` and `numpy` libraries behave as documented (Pointer seeks absolutely, Prefixed back-patches its length, Struct parses fields in order)",
@@ -31,6 +45,9 @@ PROPS = {
         "assumptions": COMMON_ASSUMPTIONS,
     },
     "X": {"rules": ["S1", "S2", "S8", "S9"], "explanation": "tmp", "assumptions": []},
+    "C20": {"rules": ["L1i", "L1ri", "L2", "T4"], "explanation": "tmp", "assumptions": []},
+    "Y": {"rules": ["L1a", "L1r", "L1w", "L1c", "L1t", "L4", "L5"], "explanation": "tmp", "assumptions": []},
+    "C07": {"rules": ["S1", "S2", "S3", "T1", "D1", "D2", "D3", "D4"], "explanation": "tmp", "assumptions": []},
     "C13": {
         "rules": ["T1", "T2", "T3", "T4"],
         "explanation": "Decides the termination/boundedness clauses of C13 that are visible in code shape: every `while` loop of the "
